@@ -43,6 +43,7 @@ class IntervalItem(Item):
                 lower, upper = upper, lower
             return lower <= index <= upper
 
-        if isinstance(self.interval, tuple):
-            return applies(self.interval)
+        # A single interval loaded from a yml file is a list of two numbers (yml has no tuples).
+        if isinstance(self.interval, tuple) or not isinstance(self.interval[0], (tuple, list)):
+            return applies(self.interval)  # type:ignore[arg-type]
         return any(applies(i) for i in self.interval)
